@@ -17,6 +17,9 @@ use crate::signature::{Signature, SignatureTable};
 #[cfg(feature = "tracing")]
 use tracing::instrument;
 
+/// Largest buffer used while copying one basis range during `patch`.
+pub(crate) const COPY_CHUNK: usize = 64 * 1024;
+
 /// Core synchronization operations trait.
 ///
 /// This trait defines the three fundamental rsync operations:
@@ -361,10 +364,17 @@ impl Sync for CopiaSync {
             match op {
                 DeltaOp::Copy { offset, len } => {
                     basis.seek(SeekFrom::Start(*offset))?;
-                    let mut buffer = vec![0u8; *len as usize];
-                    basis.read_exact(&mut buffer)?;
-                    output.write_all(&buffer)?;
-                    hasher.update(&buffer);
+                    // `len` comes from the (untrusted) delta: copy through a bounded
+                    // buffer instead of allocating the declared length up front.
+                    let mut remaining = *len as usize;
+                    let mut buffer = vec![0u8; remaining.min(COPY_CHUNK)];
+                    while remaining > 0 {
+                        let n = remaining.min(buffer.len());
+                        basis.read_exact(&mut buffer[..n])?;
+                        output.write_all(&buffer[..n])?;
+                        hasher.update(&buffer[..n]);
+                        remaining -= n;
+                    }
                     bytes_written += u64::from(*len);
                 }
                 DeltaOp::Literal(data) => {
